@@ -23,13 +23,13 @@ LEVEL = "model_checking"
 HARNESS = ["invoices/c15_test.go"]
 D1_KEY = "replay:keysend-expiry-precheck"
 
-# (k1, k2, MaxEvents (0 = full closure), NC)
-MC_QUICK = [("regular", "hold", 0, 3), ("zeroamt", "keysend", 0, 3), ("noaddr", "holdna", 0, 3),
-            ("amp", "regular", 6, 3)]
-MC_THOROUGH = [("regular", "hold", 0, 3), ("zeroamt", "keysend", 0, 3), ("noaddr", "holdna", 0, 3),
-               ("regular", "regular", 0, 3), ("hold", "hold", 0, 3), ("keysend", "holdna", 0, 3),
-               ("zeroamt", "noaddr", 0, 3), ("amp", "regular", 8, 3), ("amp", "amp", 7, 3),
-               ("keysend", "amp", 8, 3), ("holdna", "amp", 8, 3)]
+# (k1, k2, NC, Amts): full closure of the model for that pair of invoice kinds (measured: 4k - 100k states each)
+FULL = "{3, 2, 4, 5}"
+MC_QUICK = [("regular", "hold", 3, FULL), ("zeroamt", "keysend", 3, FULL), ("noaddr", "holdna", 3, FULL),
+            ("amp", "regular", 2, FULL)]
+MC_THOROUGH = MC_QUICK + [("regular", "regular", 3, FULL), ("hold", "hold", 3, FULL), ("keysend", "holdna", 3, FULL),
+                          ("zeroamt", "noaddr", 3, FULL), ("amp", "amp", 2, FULL), ("keysend", "amp", 2, FULL),
+                          ("holdna", "amp", 2, FULL), ("amp", "regular", 3, "{2, 4}")]
 
 
 def q(s):
@@ -112,27 +112,36 @@ def report(ck, store, kind, recs, v, quirk):
 
 
 def d1_probe(ck, store, recs):
-    """The first trace of the replay file is the fixed D1 schedule. Returns True if the code shows D1."""
+    """The first trace of the replay file is the fixed D1 schedule. Returns (shows D1, evidence or None)."""
     tr = split_traces(recs)[0]
     p = os.path.join(ck.out, "d1_%s.ndjson" % store)
     core.write_ndjson(p, tr)
     v0 = validate_seq(ck, p, False, "d1_%s_noquirk" % store)
     if v0["ok"]:
-        return False
+        return False, None
     v1 = validate_seq(ck, p, True, "d1_%s_quirk" % store)
     if not v1["ok"]:
         # neither model explains the probe: an unknown deviation, reported like any other
         report(ck, store, "replay", tr, v1, True)
-        return True
+        return True, None
     bad = tr[min((v0["line"] or 1) - 1, len(tr) - 1)]
+    return True, dict(store=store, path=p, why=bad.get("why"), inv=v0["invariant"], line=v0["line"],
+                      bad=json.dumps(compact(bad))[:400], text=describe_trace(tr) + "\n\n" + (v0["cex"] or ""))
+
+
+def d1_report(ck, evs):
+    evs = [e for e in evs if e]
+    if not evs:
+        return
+    e = evs[0]
     ck.violation(D1_KEY,
                  "replay of a keysend HTLC that is already settled answers '%s' once expiry < height + "
-                 "FinalCltvRejectDelta (processKeySend runs its expiry pre-check before the replay logic): the "
-                 "replayed HTLC does not get its original verdict (%s store; rejected by %s at line %s: %s)" % (
-                     bad.get("why"), store, v0["invariant"], v0["line"], json.dumps(compact(bad))[:400]),
-                 files={"trace.ndjson": p, "schedule.ndjson": os.path.join(SPEC, "d1_keysend_replay.ndjson")},
-                 text=describe_trace(tr) + "\n\n" + (v0["cex"] or ""))
-    return True
+                 "FinalCltvRejectDelta (NotifyExitHopHtlc runs processKeySend's expiry pre-check before the replay "
+                 "logic): the replayed HTLC does not get its original verdict (%s store(s); rejected by %s at line %s "
+                 "of the fixed schedule d1_keysend_replay.ndjson: %s)" % (
+                     e["why"], "+".join(x["store"] for x in evs), e["inv"], e["line"], e["bad"]),
+                 files={"trace.ndjson": e["path"], "schedule.ndjson": os.path.join(SPEC, "d1_keysend_replay.ndjson")},
+                 text=e["text"])
 
 
 def negative_controls(ck, seq_recs, par_recs, quirk):
@@ -201,17 +210,40 @@ def negative_controls(ck, seq_recs, par_recs, quirk):
     ck.cov["negative_controls"] = ctl
 
 
+def replay(ck, path):
+    """./vcheck C15 --replay <violation dir | trace.ndjson>: judge one stored trace again (no evidence is written)."""
+    import sys
+    p = os.path.join(path, "trace.ndjson") if os.path.isdir(path) else path
+    recs = core.read_ndjson(p)
+    par = any(r["a"] == "Par" for r in recs)
+    rc = 0
+    for quirk in (False, True):
+        v = (validate_par if par else validate_seq)(ck, p, quirk, "replay_quirk%d" % quirk)
+        core.log("  replay %s with KeysendQuirk=%s: %s" % (p, quirk, "accepted" if v["ok"] else
+                                                          "REJECTED (%s at line %s)" % (v["invariant"], v["line"])))
+        if quirk and not v["ok"]:
+            core.log("VIOLATION property=C15 replay=%s" % path)
+            core.log((v["cex"] or "")[-3000:])
+            rc = 1
+    sys.exit(rc)
+
+
 def run(ck):
+    if getattr(ck, "replay", None):
+        replay(ck, ck.replay)
     thorough = ck.tier == "thorough"
     extra = json.loads(os.environ.get("VERIF_EXTRA_OVERLAY", "") or "{}") or None   # mutation controls
 
     # ---------------------------------------------------------------- (a) model checking
     base = {"V": 4, "InvDelta": 6, "RejectDelta": 4, "MaxHeight": 50, "MaxNow": 50, "KeysendQuirk": "FALSE"}
-    for k1, k2, maxev, nc in (MC_THOROUGH if thorough else MC_QUICK):
-        c = dict(base, NC=nc, K1=q(k1), K2=q(k2), MaxEvents=maxev)
+    pairs = MC_THOROUGH if thorough else MC_QUICK
+    if extra and os.environ.get("VERIF_C15_FAST"):
+        pairs = MC_QUICK[1:2]      # mutation-control runs: the code mutation does not change the model
+    for k1, k2, nc, amts in pairs:
+        c = dict(base, NC=nc, K1=q(k1), K2=q(k2), MaxEvents=0, Amts=amts)
         ck.model_check(SPEC, "InvoiceRegistryMC", "InvoiceRegistryMC.cfg",
-                       "InvoiceRegistry %s+%s, %s" % (k1, k2, "full closure" if maxev == 0 else "sequences <= %d" % maxev),
-                       constants=c, workers=8, name="mc_%s_%s" % (k1, k2), timeout=1500)
+                       "InvoiceRegistry %s+%s, %d circuits, amounts %s, all reachable states" % (k1, k2, nc, amts),
+                       constants=c, workers=8, name="mc_%s_%s_%d" % (k1, k2, nc), timeout=1500)
     ck.cov["exhaustive"] = True
     # the model-level picture of D1: with the quirk the property fails in the model, too
     r = ck.model_check(SPEC, "InvoiceRegistryMC", "InvoiceRegistryMCQuirk.cfg",
@@ -239,7 +271,9 @@ def run(ck):
     recs = {k: core.read_ndjson(p) for k, p in paths.items()}
 
     # ---------------------------------------------------------------- (d) validation
-    quirk = {st: d1_probe(ck, st, recs[("trace", st)]) for st in ("kv", "sql")}
+    probes = {st: d1_probe(ck, st, recs[("trace", st)]) for st in ("kv", "sql")}
+    quirk = {st: probes[st][0] for st in probes}
+    d1_report(ck, [probes[st][1] for st in ("kv", "sql")])
     if quirk["kv"] != quirk["sql"]:
         ck.violation("divergence:keysend-replay", "KV and SQL stores disagree on the keysend replay probe: %s" % quirk)
     nviol = 0
